@@ -93,7 +93,7 @@ def run(tier, seed):
     rep = Report(PID, tier, seed, 'model_checking')
     common.build_mmdump()
     common.build_mmdump(debug=True)
-    mirs = [common.dump_mir('mimium_lang')[0], common.dump_mir('state_tree')[0]]
+    mirs = common.prog_mirs()
     files = common.corpus_files(['cl', 'fx'])
     files = [f for f in files if os.path.basename(f).startswith(('cl_', 'closure', 'hof', 'box', 'enum', 'generic', 'placeholder', 'recursion', 'parameter_pack', 'record', 'pipe', 'loopcounter'))]
     N = 3 if quick else 6
